@@ -66,6 +66,38 @@ fn main() {
 		eprintln!("usage: vcheck <ID> [--tier quick|thorough] [--seed N] [--replay FILE]");
 		std::process::exit(2);
 	};
+	// a fuzz artifact (raw bytes, not a JSON replay file) is replayed through its fuzz target
+	if let Some(r) = &replay {
+		let is_json = std::fs::read_to_string(r).ok().and_then(|s| serde_json::from_str::<serde_json::Value>(&s).ok()).map_or(false, |v| v.get("case").is_some());
+		if !is_json {
+			let name = r.file_name().and_then(|n| n.to_str()).unwrap_or("");
+			let target = ["c16_json", "c19_signal", "c11_glob"].into_iter().find(|t| name.contains(t));
+			let Some(target) = target else {
+				eprintln!("replay file is neither a JSON replay nor a known fuzz artifact: {r:?}");
+				std::process::exit(2);
+			};
+			let st = std::process::Command::new("cargo")
+				.current_dir("/verif/harness")
+				.env("CARGO_NET_OFFLINE", "true")
+				.args(["+nightly", "fuzz", "run", "--fuzz-dir", "/verif/fuzz", target])
+				.arg(r)
+				.status();
+			match st {
+				Ok(s) if s.success() => {
+					println!("replayed fuzz artifact through {target}: no failure");
+					std::process::exit(0);
+				}
+				Ok(_) => {
+					println!("VIOLATION property={id} replay={}", r.display());
+					std::process::exit(1);
+				}
+				Err(e) => {
+					eprintln!("cannot run cargo fuzz: {e}");
+					std::process::exit(2);
+				}
+			}
+		}
+	}
 	let engine = match Engine::new(&id, tier, seed, replay.as_deref()) {
 		Ok(e) => e,
 		Err(e) => {
